@@ -283,7 +283,7 @@ func H_Windows() {
 	}
 	var root []byte
 	commit := func() bool {
-		lvl := levels[vp.Choose("level", len(levels))]
+		lvl := levels[vp.Choose("level", vp.Param("nlevels", len(levels)))]
 		var err error
 		if vp.NoPanic("C11.nopanic", func() {
 			b, e := t.Commit(lvl)
@@ -350,6 +350,9 @@ func H_Windows() {
 			return
 		}
 		ngc := vp.Choose("ngc", maxgc+1)
+		if vp.Param("gc_all_or_none", 0) == 1 && ngc != 0 && ngc != maxgc {
+			vp.Assume(false)
+		}
 		for g := 0; g < ngc; g++ {
 			var err error
 			if vp.NoPanic("C11.nopanic", func() { err = t.DeleteNodes() }) {
